@@ -547,6 +547,7 @@ fn c01_probe(_sc: &UnbondLc, c: &Chain, o: &HubObs, cx: &mut Cx) {
         for &i in p {
             let (u, val, n) = &mu[i];
             let (r, paid) = do_withdraw(&mut cc, u);
+            cx.probe(2);
             match r {
                 Ok(_) => {
                     pays[i] = Some(paid);
